@@ -399,6 +399,14 @@ def model_index_by_name(f, container, alias):
 def index_by_name(prog, res, f, cls_pos, vecs):
     """first-exact-match rule: read off the usual loop shape; any other shape is decided by walking the
     function on finite models (never a verdict from the shape alone)"""
+    # "the first element with exactly that name" is a function of the container and the name: a look-up that writes to the
+    # object (through a mutable member) answers according to what was asked before
+    import effects as _FX
+    own = sorted({_FX.fmt(e) for e in _FX.get(prog).of(f) if e[0] == 'this'})
+    if own and f.rec.get('const'):
+        res.viol('index-by-name', f.sig, f.loc(), 'the const look-up modifies the object (%s): with two elements of the same name the answer depends on earlier look-ups, not on the first match' % own[:2],
+                 function=f.sig, expr='stateful-lookup')
+        return None
     tmp = Result('x', 'quick', '')
     cont = check_index_by_name(prog, tmp, f, cls_pos, None)
     if tmp.obs and all(o['verdict'] == 'ok' for o in tmp.obs):
